@@ -253,8 +253,49 @@ class SimLock:
         self.release()
 
 
-def install_lock() -> None:
-    """Replace the Lock the library's thread-safe cache creates (called in the run's child)."""
-    import liquid2.utils.lru_cache as m
+class SimRLock(SimLock):
+    """Re-entrant variant (``threading.RLock``): the owning simulated thread may re-acquire."""
 
-    m.Lock = SimLock
+    def __init__(self) -> None:
+        super().__init__()
+        self.owner = None
+        self.depth = 0
+
+    def _me(self):
+        sim = ACTIVE
+        i = getattr(sim.tls, "idx", None) if sim is not None else None
+        return ("sim", i) if i is not None else ("real", threading.get_ident())
+
+    def acquire(self, blocking: bool = True, timeout: float = -1) -> bool:
+        me = self._me()
+        if self.held and self.owner == me:
+            self.depth += 1
+            return True
+        if not super().acquire(blocking, timeout):
+            return False
+        self.owner, self.depth = me, 1
+        return True
+
+    def release(self) -> None:
+        if not self.held or self.owner != self._me():
+            raise RuntimeError("cannot release un-acquired lock")
+        self.depth -= 1
+        if self.depth == 0:
+            self.owner = None
+            super().release()
+
+
+def install_lock() -> None:
+    """Replace the lock primitives the library's modules imported by name (called in the run's
+    child): every attribute of a loaded ``liquid2.*`` module that IS ``threading.Lock`` / ``RLock``."""
+    import liquid2.utils.lru_cache  # noqa: F401
+
+    for name, mod in list(sys.modules.items()):
+        if mod is None or not name.startswith("liquid2"):
+            continue
+        d = getattr(mod, "__dict__", {})
+        for k, v in list(d.items()):
+            if v is threading.Lock:
+                d[k] = SimLock
+            elif v is threading.RLock:
+                d[k] = SimRLock
